@@ -113,7 +113,7 @@ DoUnsubscribe(c, f) ==
 
 DoPublish(c, t, qos, retain, empty) ==
   LET m == [topic |-> t.topic, lv |-> t.lv, sys |-> t.sys, qos |-> qos, retain |-> retain, empty |-> empty,
-            tag |-> ctr.pub + 1, pid |-> 0, dup |-> FALSE, alias |-> 0, notopic |-> FALSE, size |-> 10, fsize |-> 10, msgexp |-> 0, ms |-> 0, props |-> ""] IN
+            tag |-> ctr.pub + 1, pid |-> 0, dup |-> FALSE, alias |-> 0, notopic |-> FALSE, size |-> 10, fsize |-> 10, msgexp |-> 0, big |-> FALSE, ms |-> 0, props |-> ""] IN
   /\ Up(N(c))
   /\ ctr.pub < MaxPubs
   /\ Publication(c, m) /\ RetainUpdate(m)
@@ -122,7 +122,7 @@ DoPublish(c, t, qos, retain, empty) ==
 
 DoApiPublish(t, qos, retain) ==
   LET m == [topic |-> t.topic, lv |-> t.lv, sys |-> t.sys, qos |-> qos, retain |-> retain, empty |-> FALSE,
-            tag |-> ctr.pub + 1, pid |-> 0, dup |-> FALSE, alias |-> 0, notopic |-> FALSE, size |-> 10, fsize |-> 10, msgexp |-> 0, ms |-> 0, props |-> ""] IN
+            tag |-> ctr.pub + 1, pid |-> 0, dup |-> FALSE, alias |-> 0, notopic |-> FALSE, size |-> 10, fsize |-> 10, msgexp |-> 0, big |-> FALSE, ms |-> 0, props |-> ""] IN
   /\ ctr.pub < MaxPubs
   /\ Publication(API, m)
   /\ q' \in OpPublish(API, m)
@@ -132,7 +132,7 @@ DoApiPublish(t, qos, retain) ==
 HeadPkt(c) == LET h == Head(q[c]) IN
   [topic |-> h.topic, tag |-> h.tag, qos |-> h.qos, retain |-> h.retain, dup |-> FALSE,
    pid |-> IF h.qos = 0 THEN 0 ELSE npid[c],
-   ids |-> IF conn[N(c)].ver = 5 THEN h.ids ELSE <<>>, size |-> 10, alias |-> 0, msgexp |-> 0 - 1, ms |-> 0, props |-> ""]
+   ids |-> IF conn[N(c)].ver = 5 THEN h.ids ELSE <<>>, size |-> 10, alias |-> 0, msgexp |-> 0 - 1, big |-> FALSE, ms |-> 0, props |-> ""]
 
 \* refinement mapping: the obligation(s) the head copy of c's queue is meant to discharge
 TargetOwed(c) == LET h == Head(q[c]) IN
